@@ -171,6 +171,15 @@ fn run_limited(
             return match result {
                 Ok(value) => {
                     let value = value.clone();
+                    // the result was popped off the operand stack: nothing may be left below it (an
+                    // operand some path forgot is invisible in the value — it shows only where a caller
+                    // addresses its own operands by position — but it is a miscompilation all the same)
+                    if !process.stack.is_empty() {
+                        return Err(quiver_core::Error::InvalidArgument(format!(
+                            "operand-stack-leftover: {} value(s) below the result",
+                            process.stack.len()
+                        )));
+                    }
                     if cfg!(debug_assertions) {
                         if let Err(e) = executor.check_refcounts() {
                             panic!("refcount invariant violated after sync execution: {e}");
@@ -203,6 +212,9 @@ fn run_impl_inner(src: &str, b: &Builtins) -> Impl {
     let (out, ex) = match qverif::catch(|| run_limited(bc, b, MAX_ROUNDS)) {
         Ok(Ok(Some((v, ex)))) => (RunOutcome::Value(v), Some(ex)),
         Ok(Ok(None)) => return Impl::Ran(format!("step-budget-exhausted:{}k-instruction-units", MAX_ROUNDS)),
+        Ok(Err(quiver_core::Error::InvalidArgument(m))) if m.starts_with("operand-stack-leftover") => {
+            return Impl::Ran(m.replace(": ", ":").replace(' ', "-"));
+        }
         Ok(Err(e)) => (RunOutcome::Error(e), None),
         Err(p) => (RunOutcome::Panic(p), None),
     };
